@@ -26,11 +26,13 @@
    stopped job, InvalidStateError kills the loop thread (clause C18_WorkerSurvives; only reachable with a policy
    that retries successful results: RetryOnValue).  FALSE models the repaired code (commits c0cff41, b8699f2):
    such a cancel() returns False and the setter is tolerant.
+   AsShipped_D8 = TRUE: the done-callback of a delegate that cancel() cancelled returns without removing the job,
+   which therefore stays in _jobs for ever (invariant NoStaleJobAtEnd); FALSE: it pops it (commit 4328398).
 *)
 EXTENDS RetryObs
 
 CONSTANTS Jobs, Scripts, SubmitTimes, Dur, CancelTimes, CancelTimes2, CancelVals,
-          MaxAttempts, Sleep, Expo, MaxSleep, RetryOnValue, Horizon, KeepHist, AsShipped_D9, Bug
+          MaxAttempts, Sleep, Expo, MaxSleep, RetryOnValue, Horizon, KeepHist, AsShipped_D9, AsShipped_D8, Bug
 
 \* script families for the configs (cfg files cannot contain tuples)
 ScriptsSmall == {<<"V">>, <<"E", "V">>, <<"E", "E", "E">>, <<"E", "F">>, <<"F">>}
@@ -401,7 +403,9 @@ CLock(c) ==    \* executor._cancel(future): with executor._lock: find the job ..
                            ESA("Observed", "canceller", now, j, "CANCELLED_AND_NOTIFIED", -1, -1)>>)
                  /\ UNCHANGED dst
             ELSE \* running attempt: stop_retry, then try to cancel the delegate future
-                 /\ jobs' = [jobs EXCEPT ![i].stop = TRUE]
+                 /\ jobs' = IF cfgC[j] /\ dst[j] = "running" /\ ~AsShipped_D8
+                              THEN Remove(jobs, i)     \* the cancelled delegate's callback pops the job (commit 4328398)
+                              ELSE [jobs EXCEPT ![i].stop = TRUE]
                  /\ IF cfgC[j] /\ dst[j] = "running"
                       THEN /\ dst' = [dst EXCEPT ![j] = "cancelled"]
                            /\ fst' = [fst EXCEPT ![j] = "cancelled"]
